@@ -13,6 +13,38 @@ from harness.core import Ctx
 from harness.tlc import MachineryError
 
 
+class LibraryHangs(Exception):
+    pass
+
+
+def watchdog(ctx, seconds):
+    """a library call that never returns (a loop whose exit condition was changed) must end in a verdict too: after `seconds`
+    (generous: 30 min quick, 6 h thorough) the main thread is interrupted; inside library code -> VIOLATION, elsewhere -> machinery"""
+    import signal
+    repo = os.path.realpath(os.environ.get("GEODEPY_REPO", "/repo"))
+    seconds = int(os.environ.get("VERIF_WATCHDOG_S", seconds))
+
+    def onalarm(signum, frame):
+        f, site = frame, None
+        while f is not None:
+            if os.path.realpath(f.f_code.co_filename).startswith(repo + os.sep):
+                site = "%s:%s in %s" % (os.path.relpath(f.f_code.co_filename, repo), f.f_lineno, f.f_code.co_name)
+                break
+            f = f.f_back
+        if site:
+            ctx.violation({"clause": "library_call_does_not_return"}, "after %d s the main thread was still inside %s" % (seconds, site),
+                          case={"kind": "hang"})
+            ctx.rule = ctx.rule or "run interrupted: a library call did not return"
+            os._exit(ctx.finish())
+        print("MACHINERY-FAILURE property=%s: no result after %d s (not inside the library)" % (ctx.prop, seconds))
+        os._exit(2)
+    try:
+        signal.signal(signal.SIGALRM, onalarm)
+        signal.alarm(int(seconds))
+    except (ValueError, AttributeError):
+        pass
+
+
 def main(argv):
     if len(argv) < 2:
         print(__doc__)
@@ -45,6 +77,7 @@ def main(argv):
             return 2
         ctx = Ctx(prop, tier, seed)
         ctx.replaying = False
+        watchdog(ctx, 1800 if tier == "quick" else 6 * 3600)
         mod.run(ctx)
         return ctx.finish()
     except MachineryError as e:
@@ -66,6 +99,23 @@ def main(argv):
                               os.path.basename(site[-1].filename) if site else "?", site[-1].lineno if site else 0),
                           case={"kind": "driver_call"})
             ctx.rule = ctx.rule or "run interrupted by an exception raised inside the library (see violations)"
+            return ctx.finish()
+        # A driver (harness/props, gridlib, alpha, fix) that cannot interpret what the library returned - a tuple of another length,
+        # None where a number is due, an attribute that is gone - fails with one of the exceptions below in ITS OWN code.  The
+        # drivers run through on every tree on which the checks pass, so this too is a statement about the tree under test.
+        here = os.path.dirname(os.path.abspath(__file__))
+        drv = [f for f in frames if os.path.realpath(f.filename).startswith(os.path.join(here, "props") + os.sep)
+               or os.path.basename(f.filename) in ("gridlib.py", "alpha.py", "fix.py", "sinexio.py", "ntv2render.py")]
+        last = frames[-1] if frames else None
+        shape = (TypeError, ValueError, IndexError, KeyError, AttributeError, ZeroDivisionError, OverflowError, ArithmeticError)
+        if (isinstance(ex, shape) and drv and last is not None and "ctx" in locals() and not getattr(ctx, "replaying", False)
+                and os.path.basename(last.filename) not in ("tlc.py", "tracecheck.py", "core.py", "main.py")):
+            traceback.print_exc()
+            ctx.violation({"clause": "library_result_not_interpretable", "exception": type(ex).__name__, "driver_site": "%s:%s" % (
+                os.path.basename(drv[-1].filename), drv[-1].name)},
+                "%s: %s  (at %s:%s)" % (type(ex).__name__, str(ex)[:200], os.path.basename(drv[-1].filename), drv[-1].lineno),
+                case={"kind": "driver_exception"})
+            ctx.rule = ctx.rule or "run interrupted: the driver could not interpret what the library returned (see violations)"
             return ctx.finish()
         traceback.print_exc()
         print("MACHINERY-FAILURE property=%s (exception in harness)" % prop)
